@@ -1,7 +1,9 @@
 import Driver.Common
 import FranzVerif.Model.Close
 /-! Sub-driver C13 (`cls` scenarios). A scenario outcome PANIC "blocked goroutines remain" becomes the
-`leaked` event after the recorded tail; HANG means Close (or something after it) never finished. -/
+`leaked` event after the recorded tail; HANG means Close (or something after it) never finished, unless the
+recorded tail shows that the scenario had reached its goroutine count after Close and found some (a leftover
+goroutine that is not durably blocked keeps the bubble alive: that is a leak, not a Close that hangs). -/
 open Driver Model.Close
 
 def parseEv (t : String) : Option (Option Ev) :=
@@ -12,6 +14,8 @@ def parseEv (t : String) : Option (Option Ev) :=
   | ["Ce", ms] => do some (some (.closeEnd (← ms.toNat?)))
   | ["Pc", r] => some (some (.pollAfterClose (r == "closed")))
   | ["Q"] => some (some .quiesce)
+  | "L" :: n :: _ => do some (some (.leftover (← n.toNat?)))   -- L:n:<the goroutines, for the reader>
+  | "S" :: _ => some none                                       -- a session stop done by the scenario; not judged
   | _ => none
 
 def refusals (c : Cfg) : St → List Ev → List String → List String
@@ -25,10 +29,12 @@ def cfg : Cfg := { boundMs := 60000 }
 
 def handle (line : String) : String :=
   let (_, impl) := splitBar line
+  let tailLeft := (toks impl).any (fun t => match parseEv t with | some (some (.leftover n)) => n != 0 | _ => false)
   if impl.startsWith "PANIC" then
-    if (impl.splitOn "blocked_goroutines_remain").length > 1 then "* | 0:C13.goroutines-remain-after-close | 1"
+    if tailLeft || (impl.splitOn "blocked_goroutines_remain").length > 1 then "* | 0:C13.goroutines-remain-after-close | 1"
     else "* | 0:C13.scenario-panic | 1"
-  else if impl.startsWith "HANG" then "* | 0:C13.close-never-returned | 1"
+  else if impl.startsWith "HANG" then
+    if tailLeft then "* | 0:C13.goroutines-remain-after-close | 1" else "* | 0:C13.close-never-returned | 1"
   else if impl.startsWith "ERR" then "* | 0:C13.scenario-err | 1"
   else
   match toks impl with
